@@ -187,7 +187,9 @@ func runR2Tamper(b *harness.B, g G, sk types.PrivateKey, c r2TamperCase) {
 		b.Violate("C19/tamper/rhp2/later-read-succeeds/"+class+"/"+path, fmt.Sprintf("after a %s at offset %d (%s) a later read on the session succeeded", kind, k, class), wit)
 		return
 	}
-	authenticated := class != "length-prefix" && !c.truncate
+	// every modified byte of a frame, the (unauthenticated) length prefix included, must close the session: the
+	// statement makes no exception, and a session left open re-reads the following bytes as a fresh length
+	authenticated := !c.truncate
 	if authenticated {
 		if !closedAfter1 || pce == nil {
 			b.Violate("C19/tamper/rhp2/session-not-closed/"+class+"/"+path, fmt.Sprintf("modified %s byte detected (%v) but IsClosed=%v PrematureCloseErr=%v", class, err1, closedAfter1, pce), wit)
